@@ -7,7 +7,10 @@ Plus two oracle-only families (no model involved):
                          statement step by step and the notifications + subscribe/unsubscribe log must agree
   library_source_scenarios   the library's own sources (of, empty, throw, never, completed Subjects, resolved
                          Futures) and plain lists / generators returned by the projection (from_ conversion),
-                         flat_map(observable); on the trampoline and on ImmediateScheduler; judged by predicates"""
+                         flat_map(observable); on the trampoline and on ImmediateScheduler; judged by predicates
+  reent_scenarios        (harness/c11_reent.py) outer elements / completions / errors / dispose issued RE-ENTRANTLY from
+                         the subscriber's on_next while an inner is still inside its own subscribe(); exact reference
+                         + the probes' own count of simultaneously subscribed inners"""
 import comb_oracle
 import comb_table
 import lib
@@ -59,6 +62,9 @@ def replay(chk, path):
     import json
     rep = json.load(open(path))
     fam = rep.get("family")
+    if fam == "reent_scenarios":          # harness/c11_reent.py: re-run the scenario on the current tree
+        import c11_reent
+        return c11_reent.replay_case(rep, path)
     if fam in ("sync_exact_scenarios", "library_source_scenarios"):
         bad = _sx_check(rep["case"]) if fam == "sync_exact_scenarios" else _ls_check(rep["case"])
         if bad:
@@ -854,5 +860,10 @@ def run(chk):
                         "concatenation for max_concurrent=1, start order = arrival order, at most max_concurrent "
                         "unfinished inners at once, nothing left subscribed after the terminal); non-trivial = "
                         "predicates hold and >= 2 arrivals")
+    import c11_reent
+    c11_reent.scenarios(chk)               # re-entrant family (fills chk.cov itself)
     a, kw = holder["args"]
+    kw["trusted_extra"] = list(kw.get("trusted_extra", ())) + [
+        "oracle-only family harness/c11_reent.py: hand-driven outer / hot probes and synchronous inner sources that "
+        "count their own live subscriptions, reaction table executed inside the subscriber's on_next"]
     return chk.finish(*a, **kw)
